@@ -119,6 +119,10 @@ def PyThrow.exc : PyThrow → Exc
   | .none3 => .typeErr
   | .args e => e
 
+/-- calling the installed `firstiter` hook: it returns, or raises whatever the user's hook raises -/
+def hookCall (cfg : HookCfg) : Call Unit :=
+  if cfg.raises then .err (.exc hookExc) else .ok ()
+
 /-- a GeneratorObjectIterator (`monitor` = cell 0 of `env`, `coro`, `ag_running`, `hooks_inited`/`finalizer`)
     and the asyncgen hook calls made so far -/
 structure GoiSt (σ : Type) where
